@@ -2,6 +2,8 @@
   Props/C11.lean — user-function caching is transparent, per evaluation and per argument.
 -/
 import RevalModel.Lemmas.Cache
+import RevalModel.Lemmas.Transparent
+import RevalModel.Impl.RuleSet
 
 namespace Reval.C11
 
@@ -91,10 +93,37 @@ theorem error_wraps_name (env : Env) (f : Str) (fm : FnModel) (a : Value) (st : 
   · simp [callFn, hf, hc, hmiss, hb]
   · simp [callFn, invokeFn, hf, hc, hb]
 
+/-- transparency: with functions whose result depends on the argument only, the outcomes of a ruleset are the same whichever
+    functions are declared cacheable — all of them, none of them, or any other assignment `c`; caching can only save
+    invocations, never change a result -/
+theorem caching_is_transparent (env : Env) (hd : Deterministic env) (c : Str → Bool) (rules : List Expr) :
+    (evaluateValue (env.withCacheable c) rules).1 = (evaluateValue env rules).1 := by
+  unfold evaluateValue
+  rw [evalRules_denote _ (deterministic_withCacheable env c hd) rules 0 St.init (consistent_init _),
+      evalRules_denote env hd rules 0 St.init (consistent_init env)]
+  exact List.map_congr_left (fun e _ => (denote_withCacheable_all env c).1 e)
+
+/-- … and a single expression likewise, from any cache state consistent with the functions -/
+theorem caching_is_transparent_expr (env : Env) (hd : Deterministic env) (c : Str → Bool) (rp : List Nat) (e : Expr) :
+    (eval (env.withCacheable c) rp e St.init).1 = (eval env rp e St.init).1 := by
+  rw [(eval_denote _ (deterministic_withCacheable env c hd) rp e St.init (consistent_init _)).1,
+      (eval_denote env hd rp e St.init (consistent_init env)).1]
+  exact (denote_withCacheable_all env c).1 e
+
 /-! non-vacuity: g(i1), g("1"), g(i1) with a counting cacheable g — two invocations, third call is a hit -/
 def demoEnv : Env := ⟨.none, [], [(['g'], ⟨true, fun i _ => .ok (.int i)⟩)], Oracle.empty⟩
 example :
     (evaluateValue demoEnv [.vec [.call ['g'] (.lit (.int 1)), .call ['g'] (.lit (.str ['1'])), .call ['g'] (.lit (.int 1))]]).1
       = [.ok (.vec [.int 0, .int 1, .int 0])] := by decide
+
+/-- the hypothesis of `caching_is_transparent` is satisfiable: an environment whose function ignores the call counter -/
+def pureEnv : Env := ⟨.none, [], [(['g'], ⟨true, fun _ v => .ok v⟩)], Oracle.empty⟩
+example : Deterministic pureEnv := by
+  intro f fm h i a
+  simp only [pureEnv, lookup] at h
+  split at h
+  · simp only [Option.some.injEq] at h; subst h; rfl
+  · simp at h
+example : (evaluateValue (pureEnv.withCacheable (fun _ => false)) [.call ['g'] (.lit (.int 4))]).1 = [.ok (.int 4)] := by decide
 
 end Reval.C11
